@@ -128,22 +128,22 @@ static void EmergencyStop(void) {
     CloseIfOpen(&LstFile);
     if (ShareMode != 0) {
         CloseIfOpen(&ShareFile);
-        unlink(ShareName);
+        UnlinkIfRegular(ShareName);
     }
     if (MacProOutput) {
         CloseIfOpen(&MacProFile);
-        unlink(MacProName);
+        UnlinkIfRegular(MacProName);
     }
     if (MacroOutput) {
         CloseIfOpen(&MacroFile);
-        unlink(MacroName);
+        UnlinkIfRegular(MacroName);
     }
     if (MakeDebug) {
         CloseIfOpen(&Debug);
     }
     if (CodeOutput) {
         CloseIfOpen(&PrgFile);
-        unlink(OutName);
+        UnlinkIfRegular(OutName);
     }
 }
 
